@@ -462,8 +462,9 @@ fn build_enum(
         quote! {
             impl #name_ident {
                 #visibility unsafe fn get() -> Self {
+                    // not `*ptr`: that moves out of the pointer and needs the enum to be `Copy`
                     unsafe {
-                        *(#address as *const Self)
+                        ::std::ptr::read(#address as *const Self)
                     }
                 }
             }
